@@ -115,6 +115,22 @@ def reorder_index(rng, x):
     return y, how
 
 
+def with_inf(rng, kind, x):
+    """law-only inputs: the same object with some of its non-NaN cells at +-inf (the wire / model values are scaled integers and
+    have no infinities; the statement's clauses - a non-NaN cell is never changed, a constant fills only NaN, the array result is
+    the values of the pandas result - are checked on them directly; seeded change C12-q2: an `np.nan_to_num` fast path)"""
+    a = np.array(x.values if kind in ('s', 'df') else x, dtype=float)
+    flat = a.reshape(-1)
+    for i in range(flat.size):
+        if not np.isnan(flat[i]) and rng.random() < 0.3:
+            flat[i] = rng.choice([np.inf, -np.inf])
+    if kind == 's':
+        return pd.Series(a, x.index, dtype=float)
+    if kind == 'df':
+        return pd.DataFrame(a, x.index, columns=x.columns, dtype=float)
+    return a
+
+
 def rand_methods(rng):
     r = rng.random()
     k = 1 if r < 0.5 else 2 if r < 0.85 else 3
@@ -359,6 +375,8 @@ def laws(rng, tier, ctx):
         x, _ = make_obj(rng, kind, n)
         ms, sp = rand_methods(rng)
         how = None
+        if n and rng.random() < 0.15:
+            x = with_inf(rng, kind, x)
         if kind in ('s', 'df') and n >= 2 and rng.random() < 0.2:
             x, how = reorder_index(rng, x)
             ms = [rng.choice(LABEL_FREE) for _ in ms]
